@@ -90,6 +90,30 @@ func checkC07(c c07Case) *evid.Fail {
 		} else if c.Safe && (g != nil || oerr != nil) {
 			return evid.F("safe-succeeds-unsafe-fails:"+cell, "%s = %s but the type-unsafe manager fails (%v)", desc, gv, oerr)
 		}
+		// a result belongs to the caller: changing it in place must not leak into the source, into shared
+		// package state, or into later conversions (a result may be the source itself only for Object / own type)
+		if got != cur {
+			var again, third *variants.Variant
+			if g := guard(func() {
+				again, _ = ops.Convert(cur, kindToType[target])
+				if again != nil && again != cur {
+					again.SetAsString("changed by the caller")
+				}
+				third, _ = ops.Convert(cur, kindToType[target])
+			}); g != nil {
+				return g
+			}
+			if !equalVal(fromVariant(cur), before) {
+				return evid.F("result-aliases-source:"+cell, "%s: changing the result in place changed the source to %s", desc, fromVariant(cur))
+			}
+			if variants.Empty.Type() != variants.Null || variants.Empty.AsObject() != nil {
+				variants.Empty.Clear()
+				return evid.F("result-aliases-shared-state:"+cell, "%s: changing the result in place changed the package-level variants.Empty", desc)
+			}
+			if third == nil || !equalVal(fromVariant(third), gv) {
+				return evid.F("conversion-not-repeatable:"+cell, "%s = %s, but after the caller changed an earlier result the same conversion gives %s", desc, gv, fromVariant(third))
+			}
+		}
 		cur, curVal = got, gv
 		_ = step
 	}
